@@ -75,6 +75,24 @@ def run(ctx):
         for (cname, cimg) in ((('x.mfm', flux.hxcmfm_image(trs, 1)),) if mfm else ()) + (('x.hfe', flux.hfe_image(trs, 1, not mfm)),):
             for cmd in [['cat'], ['info', '*.*'], ['free'], last if not mfm else ['dump-sector', '0', '39', '17']]:
                 dfs_cases.append((cname, cimg, ['--file', '@' + cname] + cmd, 'flux-' + fk))
+    # a two-sided flux image whose second side is unformatted, and one with an empty first track
+    dd = discs.gen_disc(r, variant='dfs', geom=(40, 10), max_files=3)
+    im = dd.encode(lambda n: bytes(n))
+    trs2 = []
+    for t in range(40):
+        secs = {rec: im[(t * 10 + rec) * 256:(t * 10 + rec + 1) * 256] for rec in range(10)}
+        trs2.append([flux.fm_track(t, 0, secs, flux.TrackLayout()), [0] * 40000])
+    for cmd in (['cat'], ['info', '*.*'], ['free'], ['cat', '2'], ['show-titles'], ['dump-sector', '0', '1', '1'], ['dump-sector', '2', '0', '0']):
+        dfs_cases.append(('b2.hfe', flux.hfe_image(trs2, 2, True), ['--file', '@b2.hfe'] + cmd, 'flux-blank-side'))
+    blank_all = [[[0] * 40000] for _ in range(3)]
+    dfs_cases.append(('b0.hfe', flux.hfe_image(blank_all, 1, True), ['--file', '@b0.hfe', 'cat'], 'flux-blank-side'))
+    # arguments that are not what the command expects (numbers that are not numbers, out of range, empty), on a valid image
+    odd = ['x', '', '-1', '1x', '99999999999999999999', '0x10', ' 1', '+', '4294967296', 'A']
+    for a_ in odd:
+        for shape in (['dump-sector', a_, '0', '0'], ['dump-sector', '0', a_, '0'], ['dump-sector', '0', '0', a_], ['cat', a_], ['free', a_], ['space', a_],
+                      ['sector-map', a_], ['show-titles', a_], ['type', a_], ['info', a_], ['--drive', a_, 'cat'], ['--dir', a_, 'cat'], ['--ui', a_, 'cat']):
+            argv = (shape[:2] + ['--file', '@odd.ssd'] + shape[2:]) if shape[0].startswith('--') else (['--file', '@odd.ssd'] + shape)
+            dfs_cases.append(('odd.ssd', img, argv, 'odd-argument'))
     tbls = bc.tables(dbg)
     basic_cases = []
     for name in bc.DIALECT_NAMES + [None, 'PDP11', 'PDP11', 'ARM', 'Mac']:
